@@ -161,6 +161,10 @@ class Methods:
             return [(st, self.deepcopy(st, args[0]))]
         if name in ("itertools.combinations", "itertools.permutations", "itertools.product", "itertools.pairwise"):
             seqs = [self.concrete_items(st, a) if not isinstance(a, int) else a for a in args]
+            if name == "itertools.permutations" and seqs[0] is None and len(args) == 2 and args[1] == 2:
+                # all ordered pairs of distinct positions of a symbolic sequence, in an unspecified order
+                snap = self.to_list(st, args[0], "tuple")[0][1]  # permutations() copies its argument first
+                return [(st, View("perm2", (snap,)))]
             if any(s is None for s in seqs):
                 raise Unsupported(name + " over symbolic sequence")
             fn = getattr(itertools, name.split(".")[1])
@@ -559,15 +563,11 @@ class Methods:
                 R = ex.fresh(s2, "rm", sv.ty)
                 j = z3.Int(f"j!rm{fresh_id()}")
                 s2.assume(ln(R.term) == ln(sv.term) - 1)
-                s2.assume(
-                    z3.ForAll(
-                        [j],
-                        z3.Implies(
-                            z3.And(0 <= j, j < ln(R.term)),
-                            at(R.term, j) == z3.If(j < k.term, at(sv.term, j), at(sv.term, j + 1)),
-                        ),
-                    )
-                )
+                # element-wise relation, stated in both index directions so that E-matching can fire from either list
+                s2.assume(z3.ForAll([j], z3.Implies(z3.And(0 <= j, j < k.term), at(R.term, j) == at(sv.term, j)), patterns=[at(R.term, j)]))
+                s2.assume(z3.ForAll([j], z3.Implies(z3.And(0 <= j, j < k.term), at(R.term, j) == at(sv.term, j)), patterns=[at(sv.term, j)]))
+                s2.assume(z3.ForAll([j], z3.Implies(z3.And(k.term <= j, j < ln(R.term)), at(R.term, j) == at(sv.term, j + 1)), patterns=[at(R.term, j)]))
+                s2.assume(z3.ForAll([j], z3.Implies(z3.And(k.term < j, j < ln(sv.term)), at(sv.term, j) == at(R.term, j - 1)), patterns=[at(sv.term, j)]))
                 s2.heap[ref.id] = ListObj(sv=R)
                 out.append((s2, None))
             return out
